@@ -170,6 +170,22 @@ def r_twf64(F, cfg):
         else:
             R.ok({"direction_table": {"Forward": "identity", "Inverse": "conj"}}, nontrivial=True)
     R.metric("trig_calls", len(trig))
+    # who-may-call: trigonometric/exponential evaluation happens nowhere else in the crate, so every
+    # twiddle factor of every algorithm comes out of the function checked above
+    TRIG = ("::sin", "::cos", "::sin_cos", "::tan", "::exp", "::exp2", "::powf", "::sinh", "::cosh", "::atan2", "::from_polar", "::cis")
+    outside = 0
+    for ob in F.bodies.values():
+        if (F.closure_parent(ob) or ob) is b:
+            continue
+        for bi, t in ob.calls():
+            c = F.callee_of(t)
+            if not c or c["local"]:
+                continue
+            p = c["p"]
+            if any(p.endswith(x) for x in TRIG) and ("impl f32" in p or "impl f64" in p or "Complex" in p or "Float" in p or "Real" in p):
+                outside += 1
+                R.violation("twf64:trig-outside:%s" % ob.name, ob.where(t), "%s evaluates %s itself: twiddle factors must come from twiddles::compute_twiddle" % (ob.name, p))
+    R.ok({"trig_calls_outside_compute_twiddle": outside}, nontrivial=True)
     return R
 
 
